@@ -98,6 +98,9 @@ CHECKS = {
  "C15": dict(cat="exploration", tech="differential property testing across engine configurations: each generated / corpus / bulk (script, inputs) case is run under the reference configuration twice and under sampled settings of VTL_THREADS x VTL_USE_IN_MEMORY_DB x VTL_MEMORY_LIMIT x VTL_TEMP_DIRECTORY; results compared as sets of datapoints",
    text="Small cases from six generators (clauses, aggregations, set operators, joins, analytic functions with total orderings, dataset expressions) and corpus cases, plus 27 bulk scripts over 2x10^5-row (thorough 10^6-row) shuffled inputs (group aggregations, analytic first/lag/running/rank/window, joins, all set operators, clauses, validation, time series, multi-statement): identical datapoints on repetition and under 12 other configurations whenever the runs complete.",
    note="Each case samples 2-3 of the 12 non-reference configurations; resource errors under a reduced memory limit are inconclusive. Bulk values are dyadic so sums are exact; otherwise relative tolerance 1e-9. Absence of nondeterminism is not established beyond 10^6 rows / 16 threads.", ref="§3 C15"),
+ "C07": dict(cat="exploration", tech="Hypothesis-generated (ruleset, data, validation mode, output mode) cases against an independent three-valued evaluation of every rule on every datapoint (reference model written in the check)",
+   text="check_datapoint (1-5 rules, when-conditions, and/or, error codes and levels, named/unnamed, invalid/all/all_measures), check (six comparison operators, dataset or scalar right side, imbalance, invalid/all) and check_hierarchy / hierarchy (1-3 rules with signed sums and five comparison operators, all six validation modes, all output modes): returned datapoints, bool_var, errorcode/errorlevel placement, imbalance = left - right, retained measures and computed items equal the model.",
+   note="Hierarchical operators are decided only in the region where all validation modes coincide (every mentioned code item present, non-null and non-zero in each group, no rule reading another rule's result): mode-specific handling of missing/null/zero items and rule ordering are NOT decided. errorlevel is compared numerically (its column type is C10's matter); check() without an output keyword is taken to mean 'all'.", ref="§3 C07"),
 }
 NOT_YET = "check not built yet in this session (work in progress, see DESIGN.md §5)"
 
